@@ -40,7 +40,7 @@ func c04Replay(c *mc.Ctx, prop, sub string, k c04Case) {
 
 func readerBFS(c *mc.Ctx, prop string, cfg ReaderCfg, depth int, maxStates int64) {
 	s := newReaderSys(cfg)
-	label := fmt.Sprintf("bfs %s dlen=%d spare=%d %s depth=%d", cfg.Kind, cfg.DLen, cfg.SpareCap, cfg.Env, depth)
+	label := fmt.Sprintf("bfs %s dlen=%d spare=%d %s warm=%d depth=%d", cfg.Kind, cfg.DLen, cfg.SpareCap, cfg.Env, cfg.Warm, depth)
 	st := mc.BFS(s, depth, maxStates, c.Expired, func(h []int, op int, what, sig string) {
 		ops := append(append([]int{}, h...), op)
 		c.Violate("bfs", prop+"|"+sig, fmt.Sprintf("after %v: %s [%s; stream of %d bytes; %s]", s.histString(h), what, cfg.Kind, cfg.DLen, cfg.Env),
@@ -118,7 +118,7 @@ func envConfigs(thorough bool) []EnvCfg {
 			for _, wl := range []bool{false, true} {
 				for z := 0; z <= 2; z++ {
 					for e := range termErrs {
-						r = append(r, EnvCfg{Chunk: ch, ErrWithLast: wl, ZeroReads: z, Err: e})
+						r = append(r, EnvCfg{Chunk: ch, ErrWithLast: wl, ZeroReads: z, Err: e, AfterErr: (e + z) % 2})
 					}
 				}
 			}
@@ -129,7 +129,8 @@ func envConfigs(thorough bool) []EnvCfg {
 	for _, ch := range []int{0, 1, 7, 4097} {
 		for _, wl := range []bool{false, true} {
 			for z := 0; z <= 1; z++ {
-				r = append(r, EnvCfg{Chunk: ch, ErrWithLast: wl, ZeroReads: z, Err: i % len(termErrs)})
+				r = append(r, EnvCfg{Chunk: ch, ErrWithLast: wl, ZeroReads: z, Err: i % len(termErrs), AfterErr: 0})
+				r = append(r, EnvCfg{Chunk: ch, ErrWithLast: wl, ZeroReads: z, Err: (i + 1) % len(termErrs), AfterErr: 1})
 				i++
 			}
 		}
@@ -158,6 +159,13 @@ func c04Run(c *mc.Ctx) {
 			}
 			readerBFS(c, "C04", ReaderCfg{Kind: "default", DLen: dl, Env: env, Sizes: sizes}, depth, 0)
 		}
+	}
+	// 1b. histories that start after 9..11 (Next(1), Release) cycles on a 1-byte-per-Read source: the size-statistics ring wraps
+	for _, warm := range []int{9, 10, 11, 21} {
+		if !c.Mine() {
+			continue
+		}
+		readerBFS(c, "C04", ReaderCfg{Kind: "default", DLen: 300, Env: EnvCfg{Chunk: 1}, Sizes: []int{1, 100, 4097}, Warm: warm, NoNeg: true}, 3, 0)
 	}
 	// 2. explicit-state search, bytes-backed
 	for _, sh := range bytesShapes {
